@@ -19,13 +19,26 @@ from .processor import Processor
 
 protein_resnames = "GLY|ALA|CYS|VAL|LEU|ILE|MET|PRO|HYP|ASN|GLN|ASP|ASP0|GLU|GLU0|THR|SER|LYS|LYS0|ARG|ARG0|HIS|HISH|PHE|TYR|TRP"
 
+def _node_from_resid(meta_molecule, resid):
+    """
+    Return the node of `meta_molecule` that has the residue id `resid`.
+    Node keys are arbitrary labels and must not be derived from resids.
+    """
+    for node in meta_molecule.nodes:
+        if meta_molecule.nodes[node].get('resid') == resid:
+            return node
+    raise KeyError(f"No residue with resid {resid} in molecule.")
+
 def _patch_protein_termini(meta_molecule, ter_mods=['N-ter', 'C-ter']):
     """
     make a resspec for a protein with correct terminal modification
     """
-    protein_termini = [({'resid': 1, 'resname': meta_molecule.nodes[0]['resname']}, ter_mods[0])]
-    max_resid = meta_molecule.max_resid
-    last_node = max_resid - 1
+    resids = [meta_molecule.nodes[node]['resid'] for node in meta_molecule.nodes]
+    first_resid = min(resids)
+    max_resid = max(resids)
+    first_resname = meta_molecule.nodes[_node_from_resid(meta_molecule, first_resid)]['resname']
+    protein_termini = [({'resid': first_resid, 'resname': first_resname}, ter_mods[0])]
+    last_node = _node_from_resid(meta_molecule, max_resid)
     last_resname = meta_molecule.nodes[last_node]['resname']
     if len(ter_mods) > 1:
         last_mod = ({'resid': max_resid, 'resname': last_resname}, ter_mods[1])
@@ -33,7 +46,7 @@ def _patch_protein_termini(meta_molecule, ter_mods=['N-ter', 'C-ter']):
     else:
         # if only one mod in ter_mods, apply the mod to both start and end residue
         LOGGER.info("Only one terminal modification specified. "
-                    f"Will apply {ter_mods[0]} to both {meta_molecule.nodes[0]['resname']}1 and {last_resname}{max_resid}")
+                    f"Will apply {ter_mods[0]} to both {first_resname}{first_resid} and {last_resname}{max_resid}")
         protein_termini.append(({'resid': max_resid, 'resname': last_resname}, ter_mods[0]))
 
     return protein_termini
@@ -74,7 +87,7 @@ def apply_mod(meta_molecule, modifications):
             else:
                 mod_atoms[mod_atom['atomname']] = {}
 
-        target_residue = meta_molecule.nodes[target_resid - 1]
+        target_residue = meta_molecule.nodes[_node_from_resid(meta_molecule, target_resid)]
         # takes care to skip all residues that come from an itp file
         if not target_residue.get('from_itp', 'False'):
             LOGGER.warning("meta_molecule has come from itp. Will not attempt to modify.")
